@@ -20,7 +20,7 @@ ASSUMPTIONS = ["reference calendar vf/refcal.py", "bizda +days asserted only whe
 
 KD = list(range(1, 41)) + list(range(58, 63)) + list(range(364, 368)) + [1460, 1461, 1462, 36524, 36525, 146097]
 KW = list(range(1, 61)) + [520, 521, 522, 523, 5217, 5218, 20871]
-REPS = ["ymd", "ymcw", "ywd", "yd", "ldn", "mdn", "jdn", "bizda"]
+REPS = ["ymd", "ymcw", "ywd", "yd", "ldn", "mdn", "jdn", "bizda", "epoch"]
 
 
 def plan(ctx):
@@ -37,6 +37,8 @@ def _exp(rep, outrep=None):
         t = n + tot
         if not (R.NMIN <= t <= R.NMAX):
             return None
+        if rep == "epoch" and max(n, t) >= TAIL0:
+            return None     # epoch values go through a day number: C01's recorded finding in the tail
         if outrep and rep in ("ldn", "mdn", "jdn") and t >= TAIL0:
             # day number -> civil date in the last 606 days is C01's recorded finding
             return None
@@ -100,9 +102,13 @@ def adds(ctx, shard, nshards):
         ds = days
         # a bare count is also a valid day number, so only with textual calendars
         dd = durs + ([bare] if rep in ("ymd", "ymcw", "ywd", "yd", "bizda") else [])
+        if rep == "epoch":
+            dd = dd[shard % 4::4]
         A.sweep(ctx, sub, V, rep, dd, ds, _exp(rep), _tag(rep), _nt)
         # the same sums printed in another calendar: the text of the own calendar can be right
         # while the value denotes another day (e.g. a wrong ISO-week "hang")
+        if rep == "epoch":
+            continue
         outrep = "ymd" if rep != "ymd" else "ywd"
         sel = dd[shard % 3::3]
         A.sweep(ctx, sub, V, rep, sel, ds, _exp(rep, outrep), lambda info, t=_tag(rep), o=outrep: t(info) + ">" + o, _nt,
